@@ -202,24 +202,39 @@ func runC02(ctx *core.Ctx, idx int) *core.Result {
 	case 2:
 		// undeclared names are ordinary code: the pattern mentions y, which is not declared
 		// in this change (but is declared in the next change of the same patch file).
+		// (or in the previous one: a metavariable's scope is the change that declares it, in both directions)
+		ykind := []string{"expression", "identifier"}[r.Intn(2)]
 		c1 := &gen.Change{Kind: "expr", Schema: "c02-undeclared", Meta: mv2("x", "expression"),
 			Lines: []gen.Line{gen.L('-', "target(«x», y)"), gen.L('+', "repl(«x», y)")}}
-		c2 := &gen.Change{Kind: "expr", Schema: "c02-undeclared-2", Meta: mv2("y", "expression"),
-			Lines: []gen.Line{gen.L('-', "zzNever(«y»)"), gen.L('+', "zzNever2(«y»)")}}
+		c2 := &gen.Change{Kind: "expr", Schema: "c02-undeclared-2-" + ykind, Meta: mv2("y", ykind),
+			Lines: []gen.Line{gen.L('-', "zzOther(«y»)"), gen.L('+', "zzOther2(«y»)")}}
+		seq := []*gen.Change{c1, c2}
+		order := "declared-later"
+		if r.Intn(2) == 0 {
+			seq = []*gen.Change{c2, c1}
+			order = "declared-earlier"
+		}
 		var srcs, extra []string
 		for f := 0; f < 4; f++ {
 			var plants []gen.Plant
 			for p := 0; p < 1+r.Intn(4); p++ {
 				second := "y"
-				if r.Intn(2) == 0 {
+				switch r.Intn(4) {
+				case 0:
 					second = g.Ident()
+				case 1:
+					second = g.Expr(1, nil)
 				}
 				plants = append(plants, gen.Plant{Kind: "expr", Text: "target(" + g.Expr(2, nil) + ", " + second + ")"})
 			}
+			if r.Intn(2) == 0 {
+				// the change that declares y is live in this file
+				plants = append(plants, gen.Plant{Kind: "expr", Text: "zzOther(" + g.Ident() + ")"})
+			}
 			srcs = append(srcs, g.File(gen.FileOpts{Plants: plants}))
-			extra = append(extra, "undeclared-name")
+			extra = append(extra, "undeclared-name-"+order)
 		}
-		semBatchSeq(ctx, idx, res, []*gen.Change{c1, c2}, srcs, extra, idx%16 == 2, "C02")
+		semBatchSeq(ctx, idx, res, seq, srcs, extra, idx%16 == 2, "C02")
 	case 3:
 		leakCase(ctx, idx, res, g)
 	}
